@@ -52,7 +52,7 @@ func runC06(c *Ctx) {
 		ci, ok := ev.In.(ssa.CallInstruction)
 		return ok && ci.Common().IsInvoke() && ci.Common().Method.Name() == "Update" && isNamed(ci.Common().Value.Type(), "match", "Client")
 	}
-	updatedParam := ssa.Value(upd.Params[3])
+	updatedParam := ssa.Value(param(upd, 3))
 	// ---- once: (*branch).update
 	{
 		c.Analysed(fnName(upd))
@@ -107,7 +107,7 @@ func runC06(c *Ctx) {
 				continue
 			}
 			n++
-			args := ci.Common().Args
+			args := refArgs(ci.Common())
 			ok := len(args) == 4 && args[3] == updatedParam
 			c.Check(ok, "C06.once", fnName(upd), "recursive update hands on the per-notification set", P.Pos(ci.Pos()), "set argument: "+Expr(args[len(args)-1]))
 		}
@@ -163,7 +163,7 @@ func runC06(c *Ctx) {
 		var addArgs []ssa.Value
 		for _, ci := range callsIn(AddQuery) {
 			if staticCallee(ci.Common()) == addQ {
-				addArgs = ci.Common().Args
+				addArgs = refArgs(ci.Common())
 			}
 		}
 		ok := false
@@ -265,7 +265,7 @@ func runC06(c *Ctx) {
 		}
 		updShape := func(s []string) bool {
 			j := strings.Join(s, " ")
-			return j == "param:"+un.Params[3].Name()+" T:false" || j == "T:true T:false"
+			return j == "param:"+param(un, 3).Name()+" T:false" || j == "T:true T:false"
 		}
 		pfxShape := func(s []string) bool { return strings.Join(s, " ") == "T:true" }
 		check(addSub, "(*match.Match).AddQuery", 1, regShape, "ToStrings(prefix, true) [origin] ToStrings(path, false)")
